@@ -121,6 +121,12 @@ def run(ctx):
         for lc in [x for x in ast.walk(d.value) if isinstance(x, ast.ListComp)]:
             if norm(lc.generators[0].iter) == keys and isinstance(lc.elt, ast.Subscript) and norm(lc.elt.slice) == unparse(lc.generators[0].target):
                 ok = True
+    if not ok:
+        # loop form: for k in <keys>: if k in acc: <result>.append(acc[k])
+        for lp in [x for x in walk_body_shallow(sba.body) if isinstance(x, ast.For) and norm(x.iter) == keys]:
+            for c in [y for y in ast.walk(lp) if isinstance(y, ast.Call) and call_name(y) == "append" and call_recv(y) == resv]:
+                if isinstance(c.args[0], ast.Subscript) and norm(c.args[0].slice) == unparse(lp.target):
+                    ok = all(isinstance(d.value, (ast.List, ast.Call)) and not getattr(d.value, "elts", None) for d in defs)
     r.check(ok and len(defs) == 1, "%s#result-order" % sba.qname, "the result list is not a comprehension over the original keys",
             where(sba, defs[0] if defs else sba.node), "caller receives responses in broker-answer order, not payload order")
 
@@ -253,4 +259,11 @@ MUTANTS = [
      "new": "                log.debug(\"%s: bootstrap connect to %s:%s -> %s\", self, host, port, e)\n                raise", "expect": "C07.R7"},
     {"id": "unsorted-hosts", "file": "client.py", "old": "    return sorted(result)", "new": "    return list(result)", "expect": "C07.R9"},
 ]
-TWINS = []
+TWINS = [
+    {"id": "result-built-by-loop", "file": "client.py",
+     "old": "        responses = [acc[k] for k in original_keys if k in acc] if acc else []",
+     "new": "        responses = []\n        for k in original_keys:\n            if k in acc:\n                responses.append(acc[k])"},
+    {"id": "leader-check-inverted", "file": "client.py",
+     "old": "                leader = yield self._get_coordinator_for_group(consumer_group)\n                if leader is None:\n                    raise CoordinatorNotAvailable(\"Coordinator not available for group: %s\" % (consumer_group))",
+     "new": "                leader = yield self._get_coordinator_for_group(consumer_group)\n                if leader is not None:\n                    pass\n                else:\n                    raise CoordinatorNotAvailable(\"Coordinator not available for group: %s\" % (consumer_group))"},
+]
